@@ -6,3 +6,5 @@ export CARGO_NET_OFFLINE=true
 export CARGO_TARGET_DIR="$(pwd)/target"
 (cd harness && cargo build --release --offline --bin vh)
 echo "setup ok"
+(cd sched && cargo build --release --offline)
+echo "setup complete"
